@@ -29,12 +29,12 @@ CHECKS = [
     dict(pid="C04", level="model_checking",
          text="LOCAL -> LOCAL step, from MIR of the async state machines run sequentially (every future completes at its await, a spawned task runs at its spawn point): deliver_local copies to the `.copia-tmp` sibling, renames over the destination only after the copy succeeded, then sets exactly the mtime it was given, requests nothing else and reports failures; run_local, for ANY SyncPlan over a universe of 2 (quick) / 3 (thorough) paths (build_plan itself is C19's), delivers exactly the plan's transfer entries in order from src/rel to dst/rel with the SOURCE's mtime, removes exactly the plan's delete entries under the destination after every delivery, creates directories only under the destination, and requests nothing in a dry run or for an empty source without --delete.",
          ref="DESIGN.md §15 one-way sync",
-         note="ONE schedule only: the job count / task interleavings are NOT explored. Push and pull over ssh (remote `cat > tmp && mv`, `touch -d`, `xargs rm`, `find -printf`, host:path parsing) are NOT covered; 'files the quick check matched are left as they were' follows from 'nothing but the plan is touched' (decided) and C19. Validation each run: the real `copia sync -r` binary on 15 local scenarios (delete / dry-run / excludes) against the tree C04 describes.",
+         note="ONE schedule only: the job count / task interleavings are NOT explored. Push and pull over ssh are NOT decided by the solver (the remote shell's `cat > tmp && mv`, `touch -d`, `xargs rm`, `find -printf`, host:path parsing); they are exercised natively on every run - the real binary, the real remote commands, executed through a two-line local stand-in for `ssh` - as validation only; 'files the quick check matched are left as they were' follows from 'nothing but the plan is touched' (decided) and C19. Validation each run: the real `copia sync -r` binary on 17 local scenarios (delete / dry-run / excludes incl. a `?` glob over a non-ASCII name / same-mtime-different-size) plus one pull and two push runs, against the tree C04 describes.",
          technique="SMT over MIR (async coroutines executed sequentially; effect trace; BTreeMap model); native end-to-end replay with the real binary, strace for order"),
     dict(pid="C09", level="model_checking",
          text="ORDER of requests the crash argument rests on, local and pull directions, from MIR: bytes reach a destination path only through a rename of its `.copia-tmp` sibling; that rename is requested only after the local copy / the remote stream into the sibling succeeded; nothing else is requested of the destination; removals of stale files come after every delivery.",
          ref="DESIGN.md §15 one-way sync",
-         note="Kill points are NOT explored (atomic rename(2) is the kernel's; a killed run leaves at worst a reserved `.copia-tmp` name: argued, not decided). The PUSH direction (`cat > tmp && mv -f tmp dst` executed by a remote shell) and transfer_file_from_remote's child-process handling are not covered. One schedule. Validation: strace of a real local delivery.",
+         note="Kill points are NOT explored (atomic rename(2) is the kernel's; a killed run leaves at worst a reserved `.copia-tmp` name: argued, not decided). Pull transport (transfer_file_from_remote, the body inside #[instrument]) is decided too: the local file is opened creating and truncating, never exclusively (a leftover staging file must not block the re-run), nothing but that path is touched, and Ok(n) needs a spawned child, n streamed bytes, a flush and a successful exit status - with the ssh child, its pipe and its status as arbitrary inputs. The PUSH direction (`cat > tmp && mv -f tmp dst` executed by a remote shell) is not covered. One schedule. Validation: strace of a real local delivery (existing and new file); a real pull over leftover staging files through a local stand-in for ssh.",
          technique="SMT over MIR (ordered effect trace of the delivery state machines); strace of the real binary"),
     dict(pid="C13", level="model_checking",
          text="CLIENT step, from MIR: hub_sync's orchestration over an ordered universe of 2 (quick) / 3 (thorough) paths with the hub's listing and the local scan symbolic and HubClient's methods summarised — exactly the local files whose hash differs from the listed one (or that the hub does not list) are Put, once each, in path order, carrying the file's hash, its path under the local root and the LISTED hash as `expected`; nothing but connect/list/put/bye is requested (hub files at other paths are never addressed); exit 0 exactly when the run completed and every Put committed. HubClient::put with the pipe as a recorder: one Put frame with the given path/expected/hash and the file's length, then the file streamed, flushed, then the reply read; Ok(committed) only for a PutResult reply.",
